@@ -279,6 +279,9 @@ def match_cases(tier, seed):
              ('compose', ((('slice', w1, 0, 16), 0, 16), (('slice', w2, 16, 32), 16, 32))),
              ('compose', ((('slice', w1, 0, 16), 0, 16), (('slice', w1, 16, 32), 16, 32))),
              ('compose', ((('slice', a, 0, 16), 0, 16), (('slice', w1, 16, 32), 16, 32))),
+             # a wildcard occurring twice, at least once inside a compound sub-term
+             ('op', '*', (('op', '+', (w1, b)), w1)), ('op', '^', (('mem', ('op', '+', (w1, K)), 32), w1)), ('op', '+', (('op', '-', (w1,)), ('op', '&', (w1, w2)))),
+             ('cond', ('op', '==', (w1, K)), w1, w2), ('op', '-', (('slice', ('op', '+', (w1, w2)), 0, 32) if False else ('op', '<<', (w1, K)), ('op', '>>', (w1, K1)))),
              w1, K, a]
     binds = [a, b, K1, ('int', 2, n), ('op', '+', (a, ('int', 2, n))), ('mem', a, 32), ('op', '-', (b,)),
              ('cond', a, b, ('int', 2, n)), ('slice', ('id', 'z', 64), 0, 32)]
@@ -331,6 +334,53 @@ def wild_names(p, acc=None):
         for x in p[1]:
             wild_names(x[0], acc)
     return acc
+
+
+def subst_occ(p, name, values, ctr=None):
+    """replace the k-th occurrence (left to right) of the identifier `name` in p by values[k] (other wildcards stay)"""
+    if ctr is None:
+        ctr = [0]
+    k = p[0]
+    if k == 'id':
+        if p[1] == name:
+            v = values[min(ctr[0], len(values) - 1)]
+            ctr[0] += 1
+            return v
+        return p
+    if k in ('int', 'cint'):
+        return p
+    if k == 'mem':
+        return ('mem', subst_occ(p[1], name, values, ctr), p[2])
+    if k == 'op':
+        return ('op', p[1], tuple(subst_occ(x, name, values, ctr) for x in p[2]))
+    if k == 'cond':
+        return ('cond',) + tuple(subst_occ(x, name, values, ctr) for x in p[1:])
+    if k == 'slice':
+        return ('slice', subst_occ(p[1], name, values, ctr), p[2], p[3])
+    if k == 'compose':
+        return ('compose', tuple((subst_occ(x[0], name, values, ctr), x[1], x[2]) for x in p[1]))
+    raise ValueError(p)
+
+
+def count_occ(p, name):
+    c = [0]
+    subst_occ(p, name, [('id', name, 32)], c)
+    return c[0]
+
+
+def inconsistent(pat_n, bd):
+    """non-instances: a wildcard that occurs twice gets two different values - incl. the wildcard identifier itself as the first
+    value (the subject may mention the same name: matching W against W binds W := W, the second occurrence must then be W too)"""
+    out = []
+    for w in wild_names(pat_n):
+        if count_occ(pat_n, w) < 2:
+            continue
+        others = {k: v for k, v in bd.items() if k != w}
+        n = 32
+        v_self, v_a, v_b = ('id', w, n), ('id', 'a', n), ('op', '+', (('id', 'b', n), ('cint', 1, n)))
+        for tag, vals in (('self-then-other', [v_self, v_a]), ('other-then-self', [v_a, v_self]), ('two-values', [v_a, v_b]), ('self-then-compound', [v_self, v_b])):
+            out.append(('inconsistent:' + tag, subst_shape(subst_occ(pat_n, w, vals), others)))
+    return out
 
 
 def mutants(p, e_shape):
@@ -389,7 +439,7 @@ def check_match(item, res):
     e_shape = subst_shape(pat_n, bd)
     name = 'MatchExpr(%s, %s, %s)' % (G.show(e_shape), G.show(pat_n), wn)
     eng = Engine(width=72, timeout_ms=20000, max_paths=300, max_seconds=60)
-    muts = mutants(pat_n, e_shape)
+    muts = mutants(pat_n, e_shape) + inconsistent(pat_n, bd)
 
     def fn(eng):
         consts = c05.sym_consts(('op', 'tuple', (pat_n, e_shape)))
